@@ -15,6 +15,7 @@ EXPLANATION = (
     "C15.N1: no function reachable from SDJWTHolder::new looks a payload digest up in the disclosure maps (the constructor cannot fail because a disclosure is absent). "
     "C15.N2: in the selection walkers every lookup keyed by a digest taken from the payload or from a disclosed value is total: a panicking `Index` on the disclosure maps must be discharged by a dominating successful lookup of the same key "
     "(paired-insert invariant), and for a `get` on the decoded map the 'absent' edge continues the iteration without reaching an Err. "
+    "C15.N3 (A6): with the selector of the current member/element assumed null or false, no Err exit depends on a failed lookup — a deselected node is tolerated even if it was already withheld. "
     "Equality of the narrowed presentation with the direct one is a relation between two runs and is not decided."
 )
 ASSUMPTIONS = [
@@ -78,3 +79,46 @@ def run(ctx):
                 nlook += 1
                 ctx.ok("C15.N2", fn, "get:%s" % which, "fallible lookup (no panic)", line=line)
     ctx.floor("C15.N2", "digest lookups in the selection walkers", nlook, 4)
+    n3(ctx, fx, H)
+
+
+def n3(ctx, fx, H):
+    """a deselected node must be tolerated even when it is absent: with the current selector assumed null / false (A6 pruning),
+    no Err exit may depend on a failed lookup (an Err that becomes unreachable once the lookup-failure edges are removed)"""
+    import c06
+    from common import next_loops, bool_switches
+    nchk = 0
+    for fn in H.sel_fns:
+        fv = vals(fn)
+        fail_edges = []
+        for b, t in fn.calls():
+            if t.get("name") in ("get", "get_key_value", "get_mut") and (t.get("self_adt") in ("std::collections::HashMap", "serde_json::Map") or (t.get("self_ty") or "").startswith("std::collections::HashMap")):
+                _, bad = success_edges(fn, fv.call_node(b))
+                fail_edges.extend(bad)
+        for (bb, tt, ft, c) in bool_switches(fn):
+            if c.kind == "call" and c.d["term"].get("name") == "contains_key":
+                fail_edges.append((bb, ft))
+        for lp in next_loops(fn):
+            it = lp.iter_ty
+            if "serde_json::map::IntoIter" in it or "serde_json::map::Iter" in it:
+                sel_path = [1]
+            elif "std::iter::Zip" in it:
+                sel_path = [0]
+            else:
+                continue
+            for assume in ("null", "false"):
+                nchk += 1
+                rem = c06.selector_prune(fx, fn, lp, sel_path, assume)
+                bad = None
+                for d in lp.body_entries:
+                    r_all = cfg.reachable(fn, [d], removed_blocks=[lp.bb], removed_edges=rem)
+                    r_nofail = cfg.reachable(fn, [d], removed_blocks=[lp.bb], removed_edges=rem + fail_edges)
+                    for e in cfg.exit_sites(fn):
+                        if e["kind"] == "Err" and e["bb"] in r_all and e["bb"] not in r_nofail:
+                            bad = e
+                if bad is None:
+                    ctx.ok("C15.N3", fn, "deselected-tolerated:%s" % assume, "with the selector %s no Err depends on a missing claim/disclosure" % assume, line=fn.term(lp.bb).get("line"))
+                else:
+                    ctx.finding("C15.N3", fn, "deselected-requires-presence:%s" % assume,
+                                "a claim that is explicitly deselected (%s) must still be present: an Err is raised when its lookup fails, so narrowing a presentation that already withholds it is refused" % assume, line=bad["line"])
+    ctx.floor("C15.N3", "selector valuations checked", nchk, 4)
